@@ -23,7 +23,7 @@ RULE = ("a case is a HISTORY of 1-14 reads/writes applied to a dense and a spars
         "(shape,data | shape,subs,vals) are compared with the Coq model. Keys: full subscripts (negative ints), subscript arrays "
         "(duplicates), linear int/list/slice, regions of ints/slices(open, closed, stepped, negative)/index lists (an index may be "
         "repeated); right-hand sides: scalar, 0, value arrays mixing 0 and non-0, exactly shaped arrays/tensors; growth of extent and "
-        "order. The input classes of the 18 REPAIRED findings (A-13..A-15, A-17, C04-N01..N03, N05..N15) are part of the ordinary "
+        "order. The input classes of the 19 REPAIRED findings (A-13..A-15, A-17, C04-N01..N03, N05..N16) are part of the ordinary "
         "streams, get a dedicated stream each and their exact former witnesses are replayed as ordinary cases (a regression is a "
         "violation). The classes of the two OPEN findings are kept out of the ordinary streams and get their own streams in which "
         "pyttb must show the specified behaviour OR exactly the as-is model (C04-N04: Model/C04AsIs.v over the GENERATED tt_irenumber; "
@@ -38,8 +38,14 @@ RULE = ("a case is a HISTORY of 1-14 reads/writes applied to a dense and a spars
         "fixed shape; out-of-range requests must raise; sptenmat additionally RAW against the transliteration of __setitem__). In every "
         "history each array / tensor operand of an earlier assignment is watched during all later steps (it must not change). "
         "Wave 5: every `S[subs] = vals` step of a sparse history is additionally compared RAW with the transliteration of "
-        "sptensor._set_subscripts run from the raw state pyttb showed before the call (check_sparse_impl); stream defect:C04-N16 (index lists "
-        "with negative entries - reads, scalar / zero / tensor writes -, integers below -extent). "
+        "sptensor._set_subscripts run from the raw state pyttb showed before the call (check_sparse_impl). Wave 6: C04-N16 is repaired "
+        "(6e4bb42, sptensor._wrap_region_entry): negative entries inside index lists are part of the ordinary region keys (they count "
+        "from the end, dense and sparse alike), the stream defect:C04-N16 (index lists with negative entries - reads, scalar / zero / "
+        "tensor writes -, integers and list entries below -extent: refused, state unchanged) is a regression stream with ONE accepted "
+        "behaviour for both classes and the former witness + five more inputs of the finding record are replayed as ordinary cases. "
+        "NEW open finding C04-N17 (residue of that repair: a list mixing a negative entry with an entry beyond the extent of the same "
+        "mode is resolved on the extent BEFORE growth by sptensor, AFTER growth by tensor): own stream defect:C04-N17, trigger = exactly "
+        "that key class on a sparse write, no as-is model (sparse mismatches inside the class are attributed). "
         "non-trivial = at least one write and one nonzero somewhere (np_adv: key in the A-16 class); distinct = distinct history")
 CORRESPONDENCE_ONLY = [
     "sptensor._set_subtensor (shape loop, subdims deletion, khatrirao enumeration, tt_intersect_rows / tt_setdiff_rows, tt_irenumber of a "
@@ -53,10 +59,16 @@ CORRESPONDENCE_ONLY = [
     "sptensor.__getitem__(region): the expansion of repeated list indices and the column selection are hand-modelled (renumber_all / "
     "keepc); the FILTER is the GENERATED sptensor.subdims (Props/C04Gen5.v C04_gen_subdims_filter, C04_gen_getitem_region) and the "
     "renumbering (all modes) the GENERATED tt_renumber (Props/C04Gen.v); the normalisation of negative integers in front of them "
-    "(entry = shape[dim] + entry) is the hand function zkey",
-    "C04-N16 class (sptensor region keys with a negative entry inside an index list, or an integer below -extent): specification = numpy's "
-    "meaning (the entry counts from the end / the request is refused), encoded for the Coq model by normalising the list against the "
-    "extent (c04_util.norm_list_ops); no as-is model: sparse mismatches of this class are attributed to the open finding",
+    "and the range check (sptensor._wrap_region_entry since 6e4bb42: integers below -extent are refused) is the hand function zkey",
+    "negative entries INSIDE an index list of a region key (tensor: numpy; sptensor: _wrap_region_entry since 6e4bb42): the Coq models' "
+    "KList holds non-negative indices; the entry is counted from the end of the extent the mode has when the key is resolved by the "
+    "Python encoder c04_util.norm_list_ops before the model sees the key (an entry below -extent is handed over as it is and must be "
+    "refused); one accepted behaviour for both classes, no theorem quantifies over negative list entries",
+    "C04-N17 class (open, wave 6: a region WRITE through an index list that mixes a negative entry with an entry at / beyond the extent "
+    "of the same mode, or a list with a negative entry on a mode that does not exist yet): specification = the list is resolved on the "
+    "GROWN extent (what tensor does: numpy sees the zero-padded array); kept out of the ordinary streams, stream defect:C04-N17 (dense "
+    "must follow the specification; sparse mismatches are attributed to the open finding, no as-is model); proposed repair "
+    "fixes/C04-N17.diff",
     "C04-N04 class (sparse tensor right-hand side through stepped / negative slices): as-is behaviour = Model/C04AsIs.v over the generated "
     "tt_irenumber, executable, compared exactly; no theorem relates it to the specification (it violates it: open finding)",
     "A-16 class in histories: numpy-following dense model check_dense_np, executable, compared exactly; the theorems about it are "
@@ -171,6 +183,9 @@ def _gen_region_key(rng, shape, for_set, grow, a16=False):
             l = rng.sample(range(d), min(m, d))
             if rng.random() < 0.3:          # an index named twice (adjacent or not)
                 l.insert(rng.randint(0, len(l)), rng.choice(l))
+            if rng.random() < 0.2:          # wave 6 (C04-N16 repaired): entries counted from the end; an index is negative at all of
+                neg = set(rng.sample(sorted(set(l)), rng.randint(1, len(set(l)))))          # its occurrences (key_repeats stays exact)
+                l = [z - d if z in neg else z for z in l]
             es.append(["l", l])
         else:
             es.append(_gen_slice(rng, d, for_set))
@@ -487,10 +502,27 @@ def defect_case(rng, fid):
                 op = ["set", key, ["scalar", _val(rng)]]
         elif fid == "A-17":
             op = ["set", ["lin", cells + rng.choice([0, 0, 1, 3])], ["scalar", _val(rng)]]
+        elif fid == "C04-N17":
+            k = rng.randrange(n)
+            d = shape[k]
+            hi = d + rng.randint(0, 1)          # an entry at / beyond the extent: the write grows mode k to hi + 1
+            if hi + 1 > MAXDIM or cells // d * (hi + 1) > MAXCELLS:
+                continue
+            l = [-rng.randint(1, hi + 1), hi] + ([rng.randrange(d)] if rng.random() < 0.3 else [])          # the negative entry lies inside the GROWN extent
+            rng.shuffle(l)
+            es = [["l", l] if j == k else rng.choice([["i", rng.randrange(dd)], ["s", None, None, None]]) for j, dd in enumerate(shape)]
+            op = ["set", ["region", es], ["scalar", rng.choice([0, _val(rng), _val(rng)])]]
         elif fid == "C04-N16":
             k = rng.randrange(n)
             d = shape[k]
-            kind = rng.choice(["lw", "lw", "lz", "lr", "lt", "iw", "ir"])
+            kind = rng.choice(["lw", "lw", "lz", "lr", "lt", "iw", "ir", "lb"])
+            if kind == "lb":         # (wave 6) an index list with an entry below -extent: refused by tensor (numpy) and sptensor
+                l = [rng.randrange(d), -d - rng.randint(1, 2)]
+                rng.shuffle(l)
+                es = [["l", l] if j == k else rng.choice([["i", rng.randrange(dd)], ["s", None, None, None]]) for j, dd in enumerate(shape)]
+                op = rng.choice([["get", ["region", es]], ["set", ["region", es], ["scalar", _val(rng)]]])
+                ops = [op, ["get", ["linslice", None, None, None]]]
+                return Case("history", {"start": start, "ops": ops, "classes": classes}, True, {"profile": profile})
             if kind[0] == "l":       # an index list with negative entries (distinct positions): numpy counts them from the end
                 picks = rng.sample(range(d), rng.randint(1, min(d, 2)))
                 l = [x - d if (j == 0 or rng.random() < 0.5) else x for j, x in enumerate(picks)]
@@ -854,7 +886,7 @@ def _asis_expr(a, steps, k):
         return None
     op = a["ops"][k]
     st0 = tgen.gsparse(a["start"]["shape"], a["start"]["subs"], a["start"]["vals"])
-    pre = U.g_ops(a["ops"][:k])
+    pre = U.g_ops(_model_ops(a)[:k])
     preobs = "[" + "; ".join(f"({_g_sparse_state(s['state'])}, {U.g_xout(None if s['exc'] else s['out'])})" for s in steps[:k]) + "]"
     if k == 0:
         preobs = "(@nil (sparse Z * option xout))"
@@ -874,6 +906,12 @@ def _a16_available(a):
     return any(U.key_is_a16(op[1]) for op in a["ops"])
 
 
+def _model_ops(a):
+    """the operations as the Coq models read them: negative entries of index lists counted from the end (U.norm_list_ops)"""
+    ops = a["ops"]
+    return U.norm_list_ops(a["start"], ops) if any(U._neg_list(op[1]) for op in ops) else ops
+
+
 def _dense_np_expr(a, steps):
     if len(steps) != len(a["ops"]) or any("broken" in s["state"] for s in steps):
         return None
@@ -886,7 +924,7 @@ def _dense_np_expr(a, steps):
             return None
     st0 = tgen.gdense(a["start"]["shape"], a["start"]["data"] if a["start"]["shape"] else [])
     obs = "[" + "; ".join(f"({_g_dense_state(s['state'])}, {U.g_xout(None if s['exc'] else s['out'])})" for s in steps) + "]"
-    return f"check_dense_np {st0} {U.g_ops(a['ops'])} {obs}"
+    return f"check_dense_np {st0} {U.g_ops(_model_ops(a))} {obs}"
 
 
 def _class_expr(a, o, cls):
@@ -913,8 +951,7 @@ def _class_expr(a, o, cls):
         # a deliberately malformed request must be REJECTED by pyttb itself (AssertionError), not crash inside numpy
         if a.get("malformed") and s["exc"] and not s["exc"].startswith("AssertionError"):
             return "false"
-    if any(U._neg_list(op[1]) for op in ops):
-        ops = U.norm_list_ops(a["start"], ops)          # wave 5 (C04-N16): the model's index lists hold non-negative indices
+    ops = _model_ops(a)          # the model's index lists hold non-negative indices
     so = (o.get("start") or {}).get(cls)
     want0 = tgen.gdense(a["start"]["shape"], a["start"]["data"] if a["start"]["shape"] else [])
     if so is not None:
@@ -1257,9 +1294,10 @@ WITNESS_ARGS = {
     "A-16": {"start": _S23, "classes": ["dense"], "ops": [["get", ["region", [["l", [0, 1]], ["l", [0, 2]]]]]]},
     "C04-N04": {"start": _S23, "classes": ["sparse"],
                 "ops": [["set", ["region", [["i", 0], ["s", 0, 3, 2]]], ["values", [7, 8]]]]},
-    # wave 5: S[[-1], 0] = 5 on the 2 x 3 sptensor: numpy / tensor write position (1, 0); sptensor stores the subscript (-1, 0)
-    "C04-N16": {"start": _S23, "classes": ["sparse"],
-                "ops": [["set", ["region", [["l", [-1]], ["i", 0]]], ["scalar", 5]], ["get", ["region", [["i", 1], ["i", 0]]]]]},
+    # wave 6: S[[-1, 3], 0] = 9 on the 2 x 3 sptensor: tensor grows mode 0 to 4 and writes (3, 0) twice (numpy counts -1 from the grown
+    # end); sptensor writes (1, 0) and (3, 0)
+    "C04-N17": {"start": _S23, "classes": ["sparse"],
+                "ops": [["set", ["region", [["l", [-1, 3]], ["i", 0]]], ["scalar", 9]], ["get", ["linslice", None, None, None]]]},
 }
 _S32 = {"shape": [3, 2], "data": [0, 3, 0, 4, 0, 5], "subs": [[1, 0], [0, 1], [2, 1]], "vals": [3, 4, 5]}
 WITNESSES = {fid: _witness(a) for fid, a in WITNESS_ARGS.items()}
@@ -1297,4 +1335,18 @@ REGRESSION_ARGS = {
     "C04-N10": {"start": {"shape": [3, 2], "data": [0] * 6, "subs": [], "vals": []}, "classes": ["sparse"],
                 "ops": [["set", ["region", [["l", [1, 1]], ["s", 0, 2, None]]], ["scalar", 5]],
                         ["get", ["linslice", None, None, None]]]},
+    # wave 6 (C04-N16 repaired, 6e4bb42): the former witness S[[-1], 0] = 5 on the 2 x 3 tensor (position (1, 0) is written, as by
+    # tensor / numpy) and the other inputs of the finding record, dense and sparse driven together
+    "C04-N16": {"start": _S23, "classes": ["dense", "sparse"],
+                "ops": [["set", ["region", [["l", [-1]], ["i", 0]]], ["scalar", 5]], ["get", ["region", [["i", 1], ["i", 0]]]]]},
+    "C04-N16/int-write": {"start": _S23, "classes": ["dense", "sparse"],         # S[-5, 0] = 7: refused, state unchanged
+                          "ops": [["set", ["region", [["i", -5], ["i", 0]]], ["scalar", 7]], ["get", ["linslice", None, None, None]]]},
+    "C04-N16/int-read": {"start": _S23, "classes": ["dense", "sparse"],          # S[-5, 0]: refused
+                         "ops": [["get", ["region", [["i", -5], ["i", 0]]]]]},
+    "C04-N16/list-read": {"start": _S23, "classes": ["dense", "sparse"],         # S[[-1], 1] reads the stored entry (1, 1)
+                          "ops": [["get", ["region", [["l", [-1]], ["i", 1]]]]]},
+    "C04-N16/list-below": {"start": _S23, "classes": ["dense", "sparse"],        # S[[-3], 0] = 4: refused, state unchanged
+                           "ops": [["set", ["region", [["l", [-3]], ["i", 0]]], ["scalar", 4]], ["get", ["linslice", None, None, None]]]},
+    "C04-N16/list-zero": {"start": _S23, "classes": ["dense", "sparse"],         # S[[-1, 0], 0] = 0 deletes (0, 0); (1, 0) was empty
+                          "ops": [["set", ["region", [["l", [-1, 0]], ["i", 0]]], ["scalar", 0]], ["get", ["linslice", None, None, None]]]},
 }
